@@ -18,7 +18,9 @@
   `C16_alias_always_undefined`, and `C16_show_self_refuted` for `show_to(s, s, pos)`), what does hold there is `C16_alias_partial`, and the proposed repair satisfies the full
   statement (`C16_alias_repaired`).
   `hash`: `String_Hash` is `hash_data(s->val, strlen(s->val))`; `hash_data` is engine `hash`'s (C10) model `Cello.Hash.hashData`,
-  proved there to be MurmurHash64A — `C16_hash_is_murmur` composes the two.
+  proved there to be MurmurHash64A — `C16_hash_is_murmur` composes the two; `C16_hash_test_vectors` /
+  `C16_hash_tail_bytes_count` evaluate it on recorded inputs (the constants of tests/test.c; lengths 0, 8, 9, 16; texts that differ
+  only behind the last full 8-byte block), the same values the harness's independent reference is validated with.
 -/
 import Cello.Str
 import Cello.Hash
@@ -508,6 +510,37 @@ theorem C16_hash_is_murmur {P : Params} (hP : P.Lawful) (J : Nat → Byte) (mv :
 example : hash Cello.Hash.hashData ⟨[72, 101, 108, 108, 111, 0]⟩ = Cello.Hash.murmur64A 0xCe110 [72, 101, 108, 108, 111] ∧
     hash Cello.Hash.hashData ⟨[72, 101, 108, 108, 111, 0, 7, 7]⟩ = hash Cello.Hash.hashData ⟨[72, 101, 108, 108, 111, 0]⟩ :=
   ⟨Cello.Hash.hashData_eq_murmur _, rfl⟩
+
+/-- **the hash VALUE on recorded inputs.**  `String_Hash` of the model — `hash_data` as extracted from the current src/Hash.c —
+    gives, for the Strings "Hello", "There", "People", exactly the three constants tests/test.c hard-codes (all shorter than one
+    8-byte block: only the tail `switch` runs), and for "" (no block, no tail), "abcdefgh" (one block, no tail), "abcdefghi" (one
+    block and a one-byte tail), "exactly16bytes!!" (two blocks) the values an independent implementation of MurmurHash64A gives
+    (Python, arbitrary-precision integers; the same values validate the harness's own reference at start-up).  The Strings
+    carry stale bytes behind the terminator: they do not count.  Evaluated by the kernel on the generated constants and step
+    lists: a source change that alters any of these values breaks this theorem. -/
+theorem C16_hash_test_vectors :
+    hash Cello.Hash.hashData ⟨[72, 101, 108, 108, 111, 0, 33, 33]⟩ = 4771441285123272284 ∧
+    hash Cello.Hash.hashData ⟨[84, 104, 101, 114, 101, 0]⟩ = 17415363727859751682 ∧
+    hash Cello.Hash.hashData ⟨[80, 101, 111, 112, 108, 101, 0, 165]⟩ = 11867268813077774525 ∧
+    hash Cello.Hash.hashData ⟨[0, 97]⟩ = 0xfc7b4ac02e6776a6 ∧
+    hash Cello.Hash.hashData ⟨[97, 98, 99, 100, 101, 102, 103, 104, 0]⟩ = 0xfa368efebf7a5511 ∧
+    hash Cello.Hash.hashData ⟨[97, 98, 99, 100, 101, 102, 103, 104, 105, 0, 106]⟩ = 0x2dce358a55f64ec6 ∧
+    hash Cello.Hash.hashData ⟨[101, 120, 97, 99, 116, 108, 121, 49, 54, 98, 121, 116, 101, 115, 33, 33, 0]⟩ = 0x126e00693149bf10 := by
+  decide +kernel
+
+/-- **the bytes behind the last full block count.**  Two Strings of nine characters that differ only in the ninth — "user:1001"
+    and "user:1002" — hash differently, and each to the value MurmurHash64A gives for its own nine bytes; a `hash_data` whose tail
+    `switch` reads the wrong bytes (the first `len % 8` instead of the last) makes the two equal.  Likewise for bytes ≥ 0x80 and
+    control bytes either side of the boundary (lengths 7, 8, 9 of the same text hash to three different values). -/
+theorem C16_hash_tail_bytes_count :
+    hash Cello.Hash.hashData ⟨[117, 115, 101, 114, 58, 49, 48, 48, 49, 0]⟩ = 0x4e428e33bedf0827 ∧
+    hash Cello.Hash.hashData ⟨[117, 115, 101, 114, 58, 49, 48, 48, 50, 0]⟩ = 0x38070accb95b59a3 ∧
+    hash Cello.Hash.hashData ⟨[117, 115, 101, 114, 58, 49, 48, 48, 49, 0]⟩ ≠ hash Cello.Hash.hashData ⟨[117, 115, 101, 114, 58, 49, 48, 48, 50, 0]⟩ ∧
+    (let t : List Byte := [0x80, 0x01, 0xff, 0x1f, 0x7f, 0x81, 0x09, 0xfe, 0xa5]
+     hash Cello.Hash.hashData ⟨t.take 7 ++ [0]⟩ ≠ hash Cello.Hash.hashData ⟨t.take 8 ++ [0]⟩ ∧
+     hash Cello.Hash.hashData ⟨t.take 8 ++ [0]⟩ ≠ hash Cello.Hash.hashData ⟨t ++ [0]⟩ ∧
+     hash Cello.Hash.hashData ⟨t ++ [0]⟩ ≠ hash Cello.Hash.hashData ⟨t.take 8 ++ [0xa4, 0]⟩) := by
+  decide +kernel
 
 /-! ### operands that point into the target's own allocation (known finding KF-C16-alias-operand)
 
